@@ -31,6 +31,7 @@ struct ClientView {
 	unsigned vmax;
 	std::vector<uint16_t> suites;
 	bool has_sigalgs; unsigned rsa_hashes, ecdsa_hashes;     // bit per hash id (2..6)
+	bool new_style_sigalgs = false;                          // an entry with 'hash' byte 8 (the TLS 1.3 code points)
 	bool has_curves; std::vector<unsigned> curves;
 	std::vector<std::string> alpn;
 	bool fallback_scsv, reneg_scsv, reneg_ext;
@@ -54,7 +55,7 @@ struct Outcome {
 	bool ambiguous = false; // configuration whose behaviour the documentation leaves open
 };
 
-static Outcome reference(const ClientView &c, const ServerView &s)
+static Outcome reference(const ClientView &c, const ServerView &s, bool sigalgs_filter_below_tls12 = false)
 {
 	Outcome o;
 	unsigned v = std::min(c.vmax, s.vmax);
@@ -87,16 +88,16 @@ static Outcome reference(const ClientView &c, const ServerView &s)
 		if (si->tls12_only && v < 0x0303) return 0;
 		switch (si->kx) {
 		case wt::KX_RSA: return s.key == K_RSA && (s.usages & BR_KEYTYPE_KEYX);
-		// Below TLS 1.2 the signature_algorithms extension has no defined meaning (RFC 5246 7.4.1.4.1); a hello that carries
-		// it with NO entry for the signature type the suite needs is an open corner (BearSSL treats the suite as unusable,
-		// ignoring the extension would be equally defensible): constructed away.
+		// Below TLS 1.2 the signature hash is fixed by the protocol (MD5+SHA-1 / SHA-1) and the signature_algorithms
+		// extension "is not meaningful" (RFC 5246 7.4.1.4.1): it does not make a suite unusable.  The library lets it
+		// (listed finding sigalgs-filter-below-tls12); the flag reproduces that behaviour for the comparison.
 		case wt::KX_ECDHE_RSA:
 			if (!(s.key == K_RSA && (s.usages & BR_KEYTYPE_SIGN) && common_curves)) return 0;
-			if (v < 0x0303 && c.has_sigalgs && !(c.rsa_hashes & s.hashes)) return -1;
+			if (sigalgs_filter_below_tls12 && v < 0x0303 && c.has_sigalgs && !(c.rsa_hashes & s.hashes)) return 0;
 			return rsa_h != 0;
 		case wt::KX_ECDHE_ECDSA:
 			if (!(s.key != K_RSA && (s.usages & BR_KEYTYPE_SIGN) && common_curves)) return 0;
-			if (v < 0x0303 && c.has_sigalgs && !(c.ecdsa_hashes & s.hashes)) return -1;
+			if (sigalgs_filter_below_tls12 && v < 0x0303 && c.has_sigalgs && !(c.ecdsa_hashes & s.hashes) && !c.new_style_sigalgs) return 0;   // (its ECDSA test also counts the 08xx code points)
 			return ec_h != 0;
 		case wt::KX_ECDH_RSA: if (!(s.key == K_ECRSA && (s.usages & BR_KEYTYPE_KEYX))) return 0; return (ccurves & (1u << 23)) ? 1 : -1;
 		case wt::KX_ECDH_ECDSA: if (!(s.key == K_EC && (s.usages & BR_KEYTYPE_KEYX))) return 0; return (ccurves & (1u << 23)) ? 1 : -1;
@@ -198,6 +199,7 @@ static void mode_scripted(Tape &t)
 			unsigned h = t.pick<unsigned>({ 2, 3, 4, 5, 6, 4, 1, 8, 0 }), sg = t.pick<unsigned>({ 1, 3, 1, 3, 2, 7 });
 			hs.push_back({ h, sg });
 			if (h >= 2 && h <= 6) { if (sg == 1) c.rsa_hashes |= 1u << h; if (sg == 3) c.ecdsa_hashes |= 1u << h; }
+			if (h == 8 && sg <= 15) c.new_style_sigalgs = true;
 		}
 		ch.add_sigalgs(hs);
 	}
@@ -217,6 +219,8 @@ static void mode_scripted(Tape &t)
 	Bytes out = drive_endpoint(&srv, ch.records(t.flag() ? 16384 : 40));
 	ServerFlight f = parse_server_flight(out);
 	Outcome r = reference(c, s);
+	Outcome rk = reference(c, s, true);
+	bool in_finding_domain = !r.ambiguous && !rk.ambiguous && (r.alert != rk.alert || r.suite != rk.suite);
 	std::string desc = fmt("scripted ClientHello v=%04x suites=[", c.vmax);
 	for (uint16_t x : c.suites) desc += fmt("%04x ", x);
 	desc += fmt("] sigalgs=%s curves=%s alpn=%zu | server %04x-%04x key=%d usages=%#x flags=%#x suites=[", c.has_sigalgs ? fmt("rsa:%#x/ec:%#x", c.rsa_hashes, c.ecdsa_hashes).c_str() : "absent",
@@ -225,6 +229,21 @@ static void mode_scripted(Tape &t)
 	desc += "]";
 	VF_CHECK(f.parse_error.empty(), "%s: server output does not parse: %s", desc.c_str(), f.parse_error.c_str());
 	if (r.ambiguous) { stats.excluded++; stats.cls("S:excluded-undocumented"); stats.eval(); return; }
+	auto agrees = [&](const Outcome &x) {
+		return x.alert >= 0 ? (!f.got_hello && f.alert_level == 2 && (f.alert_desc == x.alert || (x.alt_alert >= 0 && f.alert_desc == x.alt_alert))) : (f.got_hello && f.alert_desc < 0 && f.suite == x.suite && f.version == x.version);
+	};
+	if (in_finding_domain && !agrees(r) && known("sigalgs-filter-below-tls12")) {
+		bool as_listed = agrees(rk);
+		std::string what = fmt("at TLS 1.0/1.1 the server removes ECDHE suites when the client's signature_algorithms extension (meaningless below TLS 1.2: the hash is fixed to MD5+SHA-1 / SHA-1) "
+			"shares no hash with it for the signature type: e.g. reference %s, server %s", r.alert >= 0 ? fmt("alert %d", r.alert).c_str() : fmt("suite %04x", r.suite).c_str(),
+			rk.alert >= 0 ? fmt("alert %d", rk.alert).c_str() : fmt("suite %04x", rk.suite).c_str());
+		VF_CHECK(as_listed, "%s: %s - but the server did neither (hello %d suite %04x alert %d)", desc.c_str(), what.c_str(), (int)f.got_hello, f.suite, f.alert_desc);
+		stats.known_finding("sigalgs-filter-below-tls12", "at TLS 1.0/1.1 the server removes ECDHE_RSA / ECDHE_ECDSA suites from the negotiation when the client's signature_algorithms extension has no hash in common for that signature type, "
+			"although below TLS 1.2 the ServerKeyExchange hash is fixed (MD5+SHA-1 / SHA-1) and the extension is not meaningful: it picks a later (non-forward-secret) suite or fails with handshake_failure");
+		stats.cls("S:known-sigalgs-filter");
+		stats.eval(fmt("S/%llx", (unsigned long long)fnv(desc)));
+		return;
+	}
 	if (r.alert >= 0) {
 		VF_CHECK(!f.got_hello && f.alert_level == 2 && (f.alert_desc == r.alert || (r.alt_alert >= 0 && f.alert_desc == r.alt_alert)), "%s: reference says fatal alert %d; server %s (alert %d/%d, error %d)", desc.c_str(), r.alert,
 			f.got_hello ? fmt("sent ServerHello suite %04x", f.suite).c_str() : "sent no hello", f.alert_level, f.alert_desc, srv.error());
